@@ -273,9 +273,13 @@ func RandomScript(r *rand.Rand, mp int, i int) Job {
 	case 0:
 		g.closeMux(x)
 	case 1:
-		g.cut(x, r.Intn(40))
-		for j := 0; j < 3; j++ {
-			g.write(x, hs[x][r.Intn(nids)], sizes[r.Intn(len(sizes))])
+		k := r.Intn(40)
+		g.cut(x, k)
+		// write until the cut has certainly been reached
+		for left := k; left >= 0; {
+			n := sizes[r.Intn(len(sizes))]
+			g.write(x, hs[x][r.Intn(nids)], n)
+			left -= 8 + n
 		}
 		g.dead = true
 	case 2:
